@@ -1068,3 +1068,188 @@ func c18Generate(r *rand.Rand, emit vutil.Emit) {
 }
 
 func TestVerifC18(t *testing.T) { vutil.Main(t, c18Generate, c18Run) }
+
+// ---------------------------------------------------------------------------
+// Aliasing blocks (C18.areset …): several schedule values alive at once,
+// decoding INTO a target that is pre-filled the way the code does it (the
+// default configuration of internal/home holds `Schedule: schedule.EmptyWeekly()`
+// and the file is decoded over it; encoding/json and yaml.v3 reuse a non-nil
+// pointer).  After every operation: a FRESH EmptyWeekly() (fields, Contains on
+// probe instants of every weekday, JSON and YAML bytes) and every value created
+// so far.
+
+// c18aTarget is a configuration struct with a schedule field, like
+// filtering.BlockedServices.
+type c18aTarget struct {
+	Schedule *Weekly  `json:"schedule" yaml:"schedule"`
+	IDs      []string `json:"ids" yaml:"ids"`
+}
+
+var c18aProbes = func() (ps []time.Time) {
+	for d := 0; d < 7; d++ {
+		ps = append(ps, time.Date(2024, 3, 3+d, 12, 0, 0, 0, time.UTC), time.Date(2024, 3, 3+d, 0, 30, 0, 0, time.UTC))
+	}
+
+	return ps
+}()
+
+type c18aWorld struct {
+	slots []*Weekly
+	// polluted: package-level state left behind by an EARLIER block already makes
+	// EmptyWeekly() non-empty.  That block has reported it; this one cannot be
+	// replayed on its own, so it is skipped (and counted as such).
+	polluted bool
+}
+
+func (w *c18aWorld) obs() (out []string) {
+	e := EmptyWeekly()
+	out = append(out, "E")
+	out = append(out, c18FmtDays(e.days)...)
+	bits := make([]byte, len(c18aProbes))
+	for i, p := range c18aProbes {
+		bits[i] = '0'
+		if e.Contains(p) {
+			bits[i] = '1'
+		}
+	}
+	jb, err := json.Marshal(e)
+	if err != nil {
+		panic(err)
+	}
+	yb, err := yaml.Marshal(e)
+	if err != nil {
+		panic(err)
+	}
+	out = append(out, string(bits), vutil.Hex(string(jb)), vutil.Hex(string(yb)), "S", strconv.Itoa(len(w.slots)))
+	for _, s := range w.slots {
+		out = append(out, vutil.Hex(s.location.String()))
+		out = append(out, c18FmtDays(s.days)...)
+	}
+
+	return out
+}
+
+func (w *c18aWorld) do(f []string) []string {
+	switch f[0] {
+	case "C18.areset":
+		w.slots = nil
+		e := EmptyWeekly()
+		w.polluted = e.days != [7]dayRange{}
+		if w.polluted {
+			return []string{"polluted"}
+		}
+
+		return []string{"ok"}
+	case "C18.anew", "C18.adec":
+		if w.polluted {
+			return []string{"skipped"}
+		}
+	}
+	switch f[0] {
+	case "C18.anew":
+		switch f[1] {
+		case "empty":
+			w.slots = append(w.slots, EmptyWeekly())
+		case "full":
+			w.slots = append(w.slots, FullWeekly())
+		case "clone":
+			w.slots = append(w.slots, w.slots[vutil.Atoi(f[2])].Clone())
+		default:
+			panic("unknown kind " + f[1])
+		}
+
+		return w.obs()
+	case "C18.adec":
+		i := vutil.Atoi(f[1])
+		text := vutil.Unhex(f[3])
+		tgt := &c18aTarget{Schedule: w.slots[i], IDs: []string{}}
+		var err error
+		if f[2] == "yaml" {
+			err = yaml.Unmarshal([]byte("ids: [youtube]\nschedule:\n"+c18Indent(text)), tgt)
+		} else {
+			err = json.Unmarshal([]byte(`{"ids":["youtube"],"schedule":`+text+`}`), tgt)
+		}
+		res := "ok"
+		if err != nil {
+			res = "err"
+		} else if tgt.Schedule != w.slots[i] {
+			// the library allocated a new value: the slot is what the configuration now holds
+			w.slots[i] = tgt.Schedule
+		}
+
+		return append([]string{res}, w.obs()...)
+	default:
+		panic("unknown op " + f[0])
+	}
+}
+
+func c18Indent(text string) string {
+	lines := strings.Split(strings.TrimRight(text, "\n"), "\n")
+	for i := range lines {
+		lines[i] = "    " + lines[i]
+	}
+
+	return strings.Join(lines, "\n") + "\n"
+}
+
+func c18aGen(r *rand.Rand, emit vutil.Emit) {
+	g := &c18Gen{r: r, emit: emit, zones: c18ZoneNames(false), trans: map[string][]int64{}}
+	n := vutil.N(300)
+	for blk := 0; blk < n; blk++ {
+		emit("C18.areset")
+		nSlots := 0
+		newSlot := func() {
+			switch k := r.IntN(10); {
+			case k < 6 || nSlots == 0:
+				emit("C18.anew", "empty")
+			case k < 8:
+				emit("C18.anew", "full")
+			default:
+				emit("C18.anew", "clone", strconv.Itoa(r.IntN(nSlots)))
+			}
+			nSlots++
+		}
+		newSlot()
+		for i, nOps := 0, 4+r.IntN(12); i < nOps; i++ {
+			if r.IntN(3) == 0 {
+				newSlot()
+
+				continue
+			}
+			yml := r.IntN(2) == 0
+			w := g.weeklyValue()
+			if r.IntN(4) > 0 {
+				// valid and visibly non-empty
+				for d := range w.days {
+					w.days[d] = g.randRange()
+				}
+				w.days[r.IntN(7)] = dayRange{start: 0, end: time.Duration(c18Day)}
+			}
+			var data []byte
+			var err error
+			if yml {
+				data, err = yaml.Marshal(w)
+			} else {
+				data, err = json.Marshal(w)
+			}
+			if err != nil {
+				panic(err)
+			}
+			fmtName := "json"
+			if yml {
+				fmtName = "yaml"
+			}
+			var line []string
+			g.emit = func(f ...string) { line = f }
+			g.emitDecode(yml, string(data), false, [7]c18DayTok{})
+			g.emit = emit
+			// line = op, text, parseOK, tz, tzOK, days…, tokens…: keep the oracle part
+			emit(append([]string{"C18.adec", strconv.Itoa(r.IntN(nSlots)), fmtName}, line[1:1+4+21]...)...)
+		}
+	}
+}
+
+func TestVerifC18Alias(t *testing.T) {
+	w := &c18aWorld{}
+	vutil.Main(t, c18aGen, w.do)
+}
